@@ -35,6 +35,22 @@ RESTRUCTURED: dict[str, str] = {}
 SEMANTIC_RULES = {'N7', 'D7', 'X6', 'E7', 'P7', 'J7', 'V4', 'I7'}
 
 
+_KNOWN_KEYS: set | None = None
+
+
+def _known_keys() -> set:
+    """Keys of the recorded known findings (they stay violations whatever happened to the code around them)."""
+    global _KNOWN_KEYS
+    if _KNOWN_KEYS is None:
+        try:
+            with open(KNOWN_FILE, encoding='utf-8') as f:
+                data = json.load(f)
+            _KNOWN_KEYS = {e.get('key') for e in data.get('known', []) if e.get('key')}
+        except (OSError, ValueError):
+            _KNOWN_KEYS = set()
+    return _KNOWN_KEYS
+
+
 def _construct(target: 'ast.AST | str', instance: str | None = None) -> tuple[str, str]:
     if isinstance(target, str):
         c, s = target, ''
@@ -62,7 +78,7 @@ class Checker:
     def bad(self, rule: str, target: 'ast.AST | str', why: str, instance: str | None = None, semantic: bool = False) -> None:
         c, s = _construct(target, instance)
         head = c.split(' [', 1)[0]
-        if not semantic and rule not in SEMANTIC_RULES and head in RESTRUCTURED:
+        if not semantic and rule not in SEMANTIC_RULES and head in RESTRUCTURED and f'{self.pid}.{rule} {c}' not in _known_keys():
             # a structural rule on code written with names it does not know: it cannot tell a defect from a rewrite
             self.obs.append(Ob(f'{self.pid}.{rule}', c, s, 'incomplete', f'{why}  [not decided: {head} {RESTRUCTURED[head]}; the structural rule does not refute restructured code]', True))
             return
